@@ -131,7 +131,13 @@ def _wrap_get(orig):
         ev = _mk_event(self, "get", key)
         inj = TRACE.injector
         if inj is not None:
-            d = inj("before", ev)
+            try:
+                d = inj("before", ev)
+            except BaseException as e:
+                ev["tr"] = time.monotonic()
+                ev["err"] = "injected:" + type(e).__name__
+                TRACE.record(ev)
+                raise
             if d:
                 await asyncio.sleep(d)
         try:
@@ -247,9 +253,28 @@ def install():
         TRACE.digest = False
         inj = os.environ.get("VERIF_INJECT")
         if inj:
-            kind, seed = inj.split(":")
+            kind, seed = inj.split(":")[:2]
             if kind == "delay":
                 TRACE.injector = make_delay_injector(int(seed))
+        if inj and inj.startswith("failkey:"):
+            _, k, root_suffix, key = inj.split(":", 3)
+            TRACE.injector = make_fail_injector(int(k), root_suffix, key)
+
+
+def make_fail_injector(k, root_suffix, key):
+    """Fail the first k `get`s of one chunk key (of the store whose root ends with root_suffix) with OSError."""
+    state = {"n": 0}
+
+    def inj(phase, ev):
+        if ev["op"] == "get" and ev["key"] == key and str(ev["root"]).endswith(root_suffix):
+            state["n"] += 1
+            ev["fault_access"] = state["n"]
+            if state["n"] <= k:
+                raise OSError(f"injected storage fault {state['n']}")
+        return 0.0
+
+    inj.state = state
+    return inj
 
 
 def make_delay_injector(seed, choices=(0.0, 0.0, 0.001, 0.005, 0.02)):
